@@ -37,6 +37,7 @@ ObsInit(DK) ==
     dirty |-> [dk \in DK |-> FALSE],   \* a purge could not delete the persisted copy (the store refused)
     stuck |-> {},
     early |-> {},     \* requests released from the queue while the fetch they queued behind had not ended
+    badpub |-> 0,     \* completions published on a key whose stored response / hit-for-pass period had not lapsed
     kills |-> 0 ]
 
 NewReq(k, d, m, pe0) ==
@@ -144,10 +145,15 @@ SetWait(o, W, v, now) ==
   [r \in DOMAIN o.req |-> IF r \in W THEN [o.req[r] EXCEPT !.waitVer = v, !.waitAt = now] ELSE o.req[r]]
 
 (* entry object e of <<d,k>> was published as a hit holding version v, stamped `now`, lifetime ttl *)
+Untimely(o, e, d, k, now) ==   \* nobody can be fetching a key whose marker is live and has not lapsed
+  LET m == o.mark[<<d, k>>] IN
+  o.cur[<<d, k>>] = e /\ m.live /\ m.kind \in {"hit", "hfp"} /\ now <= m.until
+
 OPublish(o0, e, d, k, v, now, ttl) ==
   LET o == GC(o0)
       o1 == [o EXCEPT !.ver[v].obtained = now, !.ver[v].stored = TRUE, !.ver[v].ttl = ttl,
-                      !.req = SetWait(o, Parked(o, e), v, now)]
+                      !.req = SetWait(o, Parked(o, e), v, now),
+                      !.badpub = IF Untimely(o, e, d, k, now) THEN @ + 1 ELSE @]
   IN IF o.cur[<<d, k>>] = e
      THEN [o1 EXCEPT !.mark[<<d, k>>] =
                         [kind |-> "hit", at |-> now, until |-> now + ttl, ver |-> v, live |-> TRUE]]
@@ -156,7 +162,8 @@ OPublish(o0, e, d, k, v, now, ttl) ==
 (* entry object e of <<d,k>> was published as hit-for-pass at `now` for eff seconds *)
 OHfp(o0, e, d, k, now, eff) ==
   LET o == GC(o0)
-      o1 == [o EXCEPT !.req = SetWait(o, Parked(o, e), 0, now)]
+      o1 == [o EXCEPT !.req = SetWait(o, Parked(o, e), 0, now),
+                      !.badpub = IF Untimely(o, e, d, k, now) THEN @ + 1 ELSE @]
   IN IF o.cur[<<d, k>>] = e
      THEN [o1 EXCEPT !.mark[<<d, k>>] =
                         [kind |-> "hfp", at |-> now, until |-> now + eff, ver |-> 0, live |-> TRUE]]
@@ -217,6 +224,10 @@ InFlight(o) ==
 P_SingleFlight(o) ==
   \A r1, r2 \in InFlight(o) :
      (o.req[r1].disp = o.req[r2].disp /\ o.req[r1].key = o.req[r2].key) => r1 = r2
+
+(* C01/C04/C07: nothing is published on a key while its stored response or its hit-for-pass period has
+   not lapsed (there is nobody who could legitimately have been fetching it) *)
+P_NoUntimelyPublish(o) == o.badpub = 0
 
 (* C01: a request that queued behind a fetch is not released before that fetch has ended *)
 P_NoEarlyRelease(o) == o.early = {}
